@@ -1,15 +1,7 @@
 // ---- spec/scrypt.rs : RFC 7914 scrypt as spec functions ----
-/// ROMix (RFC 7914 section 5) on one 128*r-byte block with cost N.  Uninterpreted at the Verus level: the real
-/// `smix` is tied to the RFC's ROMix / BlockMix / Salsa20/8 by the Kani harnesses (salsa: complete; the rest bounded).
-pub uninterp spec fn spec_ro_mix(block: Seq<u8>, n: nat, r: nat) -> Seq<u8>;
-pub mod scrypt_axioms {
-use vstd::prelude::*;
-use super::*;
-pub broadcast proof fn axiom_ro_mix_len(block: Seq<u8>, n: nat, r: nat)
-    ensures #[trigger] spec_ro_mix(block, n, r).len() == block.len()
-{ admit(); }
-}
-pub use scrypt_axioms::axiom_ro_mix_len;
+/// ROMix (RFC 7914 section 5) on one 128*r-byte block with cost N: defined on 32-bit words in spec/scrypt_words.rs
+/// (scryptROMix / scryptBlockMix / Integerify transcribed from the RFC; Salsa20/8 itself uninterpreted there).
+pub open spec fn spec_ro_mix(block: Seq<u8>, n: nat, r: nat) -> Seq<u8> { spec_ro_mix_words(block, n, r) }
 
 /// byte offset of block k: k * 128 * r.  Opaque, so that the loop proofs see only the linear facts of lemma_boff
 /// (non-linear arithmetic in the main queries made them seed-sensitive).
